@@ -312,6 +312,11 @@ with_fine("C09", "c09f", "harness/c09_felock.c")
 with_fine("C12", "c12f", "harness/c13_reap.c", "-DPROP_C12")
 with_fine("C13", "c13f", "harness/c13_reap.c")
 with_fine("C14", "c14f", "harness/c14_once.c")
+with_fine("C03", "c03f", "harness/c03_context.c")
+with_fine("C10", "c10mf", "harness/c10_migrate.c")
+with_fine("C15", "c15ff", "harness/c15_fini.c")
+with_fine("C17", "c17f", "harness/c17_bulk.c")
+with_fine("C20", "c20f", "harness/c20_timed.c")
 
 
 def _sleep_e2(name):
